@@ -159,6 +159,27 @@ CHECKS = {
                 "writer stores, make_noise calls bind both implementations (R17e).",
         "note": "Not decided: RMS as a statistic, interpolation error between FFT grid points, statistical independence. Trusted: degree-domain table.",
     },
+    "C13": {
+        "technique": "static analysis: structured path counting (throw counter), polynomial normal form of the weight and sampling formulas, decision-table extraction",
+        "text": "count += 1 is first and executes exactly once per create_event invocation, rejected throws recurse, count getters/setters are "
+                "mutual inverses (R13a); survival and interaction weights equal the stated formulas in normal form incl. the -direction "
+                "argument and L = L_tot/0.92/100 (R13b); shadow decision table (R13c); cumulative flavour thresholds with a separate "
+                "nu/nubar draw and normalised ratio (R13d); sqrt-radius / uniform-cos sampling formulas with separate draws (R13e); the box "
+                "and cylinder used for sampling, exit points and volume agree (R13f); list replay index arithmetic (R13g).",
+        "note": "Not decided: uniformity/isotropy as distributions, exit-point case analysis for every direction (axis-parallel, grazing), "
+                "secondaries. Necessary conditions of the weight/count clauses. Trusted: PolyNF; numpy.random draws are independent uniforms.",
+    },
+    "C14": {
+        "technique": "static analysis: parameter-table extraction and cross-comparison, polynomial normal form, decision tables, parallel-list growth rule",
+        "text": "For the default (CTW) model all 20 constants of the four cross_section arms equal the matching c_i_cc/c_i_nc of "
+                "total_cross_section, the exponent polynomials coincide and the total is the sum of the two powers (R14a: sufficient for CC + NC "
+                "= total at every energy); interaction lengths are 1/(N_A sigma) (R14b); primary shower-fraction table incl. 'exactly 1 for CC "
+                "nu_e' and 'all hadronic for NC', NC return before the secondary loop, energy-conservation guard (R14c); complete parameter "
+                "arms ending in raise (R14d); event-tree lists grow together with indices taken before the extend, iter/len over _all, "
+                "get_children/get_parent inverse maps (R14e).",
+        "note": "Not decided: y in [0,1], positivity/monotonicity of cross sections, sampled distributions, secondary tables. The GQRS "
+                "antiparticle total differs from CC+NC by 1e-38 relative 1e-3; the property names the default model only.",
+    },
 }
 
 _TODO = "check not built yet in this session (see DESIGN.md section 3 for the planned rules)"
